@@ -303,7 +303,7 @@ def _large_chunk(params, lo, hi):
 
 DEEP_N = 120000
 DEEP_FUNCS = ["strongly_connected_components_edges", "topological_sort_edges", "bfs_edges", "dfs_edges", "dijkstra_edges", "bellman_ford", "kruskal", "pagerank_edges"]
-DEEP_GRAPHS = ["path", "cycle", "reversed_path_listing"]
+DEEP_GRAPHS = ["path", "cycle", "reversed_path_listing", "path_edges_pointing_back"]
 
 _DEEP_SCRIPT = r"""
 import sys, hashlib, json
@@ -314,6 +314,8 @@ if graph == "path":
     el = [(i, i + 1) for i in range(N - 1)]
 elif graph == "cycle":
     el = [(i, (i + 1) % N) for i in range(N)]
+elif graph == "path_edges_pointing_back":  # (new node, old node) in ascending order: unions that name the growing component second
+    el = [(i + 1, i) for i in range(N - 2)] + [(0, N - 1)]  # the last node hangs off node 0 by the heaviest edge: the far end of the chain is asked for last
 else:
     el = [(i, i + 1) for i in range(N - 2, -1, -1)]
 kw = {} if be == "default" else {"backend": be}
@@ -325,12 +327,12 @@ elif fname in ("bfs_edges", "dfs_edges"):
 elif fname == "dijkstra_edges":
     r = fn(N, [(u, v, 1.0) for u, v in el], 0, **kw)
 elif fname == "bellman_ford":
-    if graph == "reversed_path_listing":  # worst-case listing: n rounds of m relaxations each, so a fortieth of the size
+    if graph in ("reversed_path_listing", "path_edges_pointing_back"):  # worst-case listings: n rounds of m relaxations each, so a fortieth of the size
         N = N // 40
-        el = [(i, i + 1) for i in range(N - 2, -1, -1)]
+        el = [(i, i + 1) for i in range(N - 2, -1, -1)] if graph == "reversed_path_listing" else [(i + 1, i) for i in range(N - 2)] + [(0, N - 1)]
     r = fn(0, [(u, v, 1.0) for u, v in el], N, **kw)
 elif fname == "kruskal":
-    r = fn(N, [(u, v, float(1 + (u % 3))) for u, v in el], **kw)
+    r = fn(N, [(u, v, (1.0 if u > v else 2.0) if graph == "path_edges_pointing_back" else float(1 + (u % 3))) for u, v in el], **kw)
 else:
     N = N // 10
     el = [e for e in el if e[0] < N and e[1] < N]
